@@ -288,6 +288,94 @@ func c06CorpusSetup() []*eng.Op {
 	return []*eng.Op{c06Mk("install", 1, eng.Flags{}, "a"), c06Mk("upgrade", 2, eng.Flags{}, "a", "b"), last}
 }
 
+// c06OptionCases: every option of the four actions, one at a time, combined with a dry-run
+// spelling - in particular the ones the code reads BEFORE the bail-out (Description, Labels,
+// Force, the values options ...), which the uniformly random records do not have.
+func c06OptionCases(tier string) []any {
+	type opt struct {
+		name string
+		set  func(f *eng.Flags, w *c06Wide)
+	}
+	common := []opt{
+		{"Description", func(f *eng.Flags, w *c06Wide) { w.Description = "trying out the new chart" }},
+		{"Labels", func(f *eng.Flags, w *c06Wide) { w.UserLabels = true }},
+		{"Force", func(f *eng.Flags, w *c06Wide) { w.Force = true }},
+		{"SkipSchemaValidation", func(f *eng.Flags, w *c06Wide) { w.SkipSchema = true }},
+		{"EnableDNS", func(f *eng.Flags, w *c06Wide) { w.EnableDNS = true }},
+		{"SubNotes", func(f *eng.Flags, w *c06Wide) { w.SubNotes, w.Notes, w.Subchart = true, true, true }},
+		{"HideNotes", func(f *eng.Flags, w *c06Wide) { w.HideNotes, w.Notes = true, true }},
+		{"HideSecret", func(f *eng.Flags, w *c06Wide) { w.HideSecret = true }},
+		{"DisableOpenAPIValidation", func(f *eng.Flags, w *c06Wide) { w.NoValidate = true }},
+		{"TakeOwnership", func(f *eng.Flags, w *c06Wide) { f.TakeOwnership = true }},
+		{"WaitForJobs", func(f *eng.Flags, w *c06Wide) { w.WaitForJobs, w.Wait = true, true }},
+		{"Atomic", func(f *eng.Flags, w *c06Wide) { f.Atomic = true }},
+		{"DisableHooks", func(f *eng.Flags, w *c06Wide) { f.NoHooks = true }},
+		{"Devel", func(f *eng.Flags, w *c06Wide) { w.Devel = true }},
+		{"DependencyUpdate", func(f *eng.Flags, w *c06Wide) { w.DependencyUpdate = true }},
+		{"PostRenderer", func(f *eng.Flags, w *c06Wide) { w.PostRender = true }},
+	}
+	per := map[string][]opt{
+		"install": append([]opt{
+			{"Replace", func(f *eng.Flags, w *c06Wide) { f.Replace = true }},
+			{"CreateNamespace", func(f *eng.Flags, w *c06Wide) { w.CreateNamespace = true }},
+			{"SkipCRDs", func(f *eng.Flags, w *c06Wide) { w.SkipCRDs = true }},
+			{"IsUpgrade", func(f *eng.Flags, w *c06Wide) { w.IsUpgrade = true }},
+		}, common...),
+		"upgrade": append([]opt{
+			{"ResetValues", func(f *eng.Flags, w *c06Wide) { w.ResetValues = true }},
+			{"ReuseValues", func(f *eng.Flags, w *c06Wide) { w.ReuseValues = true }},
+			{"ResetThenReuseValues", func(f *eng.Flags, w *c06Wide) { w.ResetThenReuse = true }},
+			{"CleanupOnFail", func(f *eng.Flags, w *c06Wide) { f.Cleanup = true }},
+			{"Recreate", func(f *eng.Flags, w *c06Wide) { w.Recreate = true }},
+			{"MaxHistory", func(f *eng.Flags, w *c06Wide) { f.MaxHistory = 2 }},
+		}, common...),
+		"rollback": {
+			{"Force", func(f *eng.Flags, w *c06Wide) { w.Force = true }},
+			{"Recreate", func(f *eng.Flags, w *c06Wide) { w.Recreate = true }},
+			{"CleanupOnFail", func(f *eng.Flags, w *c06Wide) { f.Cleanup = true }},
+			{"WaitForJobs", func(f *eng.Flags, w *c06Wide) { w.WaitForJobs, w.Wait = true, true }},
+			{"Version", func(f *eng.Flags, w *c06Wide) { f.Version = 1 }},
+		},
+		"uninstall": {
+			{"KeepHistory", func(f *eng.Flags, w *c06Wide) { f.KeepHistory = true }},
+			{"IgnoreNotFound", func(f *eng.Flags, w *c06Wide) { w.IgnoreNotFound = true }},
+			{"Description", func(f *eng.Flags, w *c06Wide) { w.Description = "gone" }},
+		},
+	}
+	var out []any
+	for _, kind := range []string{"install", "upgrade", "rollback", "uninstall"} {
+		for i, o := range per[kind] {
+			spells := c06DrySpellings[:4]
+			if tier != "thorough" { // quick: two of the four spellings, alternating
+				spells = []c06Spelling{c06DrySpellings[i%4], c06DrySpellings[(i+2)%4]}
+			}
+			if kind == "rollback" || kind == "uninstall" {
+				spells = spells[:1]
+			}
+			for _, sp := range spells {
+				op := c06Mk(kind, 7, eng.Flags{}, "a", "c")
+				w := &c06Wide{CRDs: kind == "install", Getter: true}
+				if kind == "install" || kind == "upgrade" {
+					op.Hooks = c06AllEventHooks()
+				} else {
+					op.Manifest = nil
+				}
+				o.set(&op.Flags, w)
+				c06SetSpelling(op, sp)
+				if kind == "rollback" || kind == "uninstall" {
+					op.Flags.DryRun = true
+				}
+				c := c06Case{Backend: "secret", Shape: "empty", Op: op, Wide: w}
+				if kind != "install" {
+					c.Setup, c.Shape = c06CorpusSetup(), "deployed3"
+				}
+				out = append(out, c)
+			}
+		}
+	}
+	return out
+}
+
 func (*c06) Corpus() []any {
 	var out []any
 	setup := func() []*eng.Op {
@@ -394,6 +482,8 @@ func (*c06) Corpus() []any {
 	}
 	out = append(out, c06Case{Backend: "secret", Shape: "empty", Op: tplChart(), Wide: &c06Wide{CRDs: true},
 		Template: &c06Template{Args: []string{"--include-crds", "--dry-run=none"}}})
+	// the command layer with every way of writing --dry-run
+	out = append(out, c06CmdCases("quick")...)
 	return out
 }
 
@@ -441,9 +531,13 @@ func (*c06) Exhaustive(tier string) []any {
 			out = append(out, c06Case{Backend: "secret", Shape: sh, Setup: c06Setup(r, sh), Op: un})
 		}
 	}
+	// every option one at a time with a dry spelling (the ones read before the bail-out included)
+	out = append(out, c06OptionCases(tier)...)
 	if !thorough {
 		return out
 	}
+	// the command layer: the remaining combinations
+	out = append(out, c06CmdCases("thorough")...)
 	// richer model: the remaining spellings of the corpus product
 	out = append(out, c06RichProduct([]c06Spelling{{false, "false"}, {false, "true"}, {true, "none"}, {true, "false"}, {true, "server"}}, c06CorpusSetup)...)
 	// wide flag records: install 2^9, upgrade 2^8, on a chart with every feature
